@@ -15,7 +15,7 @@ func init() { register("C08", c08) }
 func c08(c *Ctx) {
 	r := c.R
 	r.Explanation = "Partial: structural necessary conditions for 'never panics / never stays blocked although a successor exists'. (S1) every dereference of the batch pointer returned by getUnlocked is guarded by its ok result (a deleted batch yields nil, and deletion can happen whenever the lock is not held); (S2) condition-variable discipline: Wait sits in a loop that re-evaluates the predicate, is executed with messagesMu held in write mode, the cancellation test precedes it, Add broadcasts after a successful write and InterruptGetNext broadcasts under the lock; (S3) cache coherence: every rewrite or deletion of a stored batch evicts its cache entry in the same critical section, and only found batches are cached; (S4) lock hygiene in the one file the project's textual lock test whitelists: every return releases what it acquired, no read-to-write upgrade. Correctness of GetNext under all interleavings is a schedule property and is not decided."
-	r.Rules = []string{"C08.S1 checked look-ups", "C08.S2 condition-variable discipline", "C08.S3 cache coherence", "C08.S4 lock hygiene", "C08.S5 tail re-pointing"}
+	r.Rules = []string{"C08.S1 checked look-ups", "C08.S2 condition-variable discipline", "C08.S3 cache coherence", "C08.S4 lock hygiene", "C08.S5 tail re-pointing", "C08.S6 error and iterator discipline", "C08.S7 keys", "C08.S8 Add links and stores", "C08.S9 look-up results and fall-backs"}
 
 	gu := c.MustFunc("outputstream.(*OutputStream).getUnlocked")
 	if gu == nil {
@@ -698,114 +698,25 @@ func c08(c *Ctx) {
 	}
 
 	// ---------- S4 lock hygiene
-	// which locks does a method acquire, itself or through the package's own functions it calls?
-	acquires := map[*types.Func]map[string]bool{}
-	byObj := map[*types.Func]*load.FuncInfo{}
-	for _, fi := range methods {
-		byObj[fi.Obj] = fi
-	}
-	var acq func(fi *load.FuncInfo, seen map[*load.FuncInfo]bool) map[string]bool
-	acq = func(fi *load.FuncInfo, seen map[*load.FuncInfo]bool) map[string]bool {
-		if a, ok := acquires[fi.Obj]; ok {
-			return a
-		}
-		out := map[string]bool{}
-		if seen[fi] || fi.Body() == nil {
-			return out
-		}
-		seen[fi] = true
-		for _, call := range astx.Calls(fi.Body(), false) {
-			if op := lockOpOf(fi.Info(), call); op != nil {
-				if op.op == "Lock" || op.op == "RLock" {
-					out[op.lock] = true
-				}
+	c.c08Keys(methods)
+	c.c08Add()
+	c.c08Lookups()
+	// ---------- S6 error and iterator discipline of the package
+	{
+		nErr, nPos := 0, 0
+		for _, fi := range c.P.FuncsIn("outputstream") {
+			if fi.Body() == nil {
 				continue
 			}
-			if fn := astx.Callee(fi.Info(), call); fn != nil {
-				if cal := byObj[fn]; cal != nil {
-					for k := range acq(cal, seen) {
-						out[k] = true
-					}
-				}
-			}
+			nErr += c.errorDiscipline("C08.S6", fi, "Add / Delete report success although the store was not changed, or Get / GetNext hand back a batch that was not read")
+			nPos += c.iteratorDiscipline("C08.S6", fi)
 		}
-		acquires[fi.Obj] = out
-		return out
-	}
-	for _, fi := range methods {
-		acq(fi, map[*load.FuncInfo]bool{})
-	}
-	for _, fi := range methods {
-		info := fi.Info()
-		g := c.Graph(fi)
-		lf := c.lockFlow(fi, g, lockSet{})
-		// no call, with a lock held, to a method that acquires the same lock (sync.RWMutex is not re-entrant; even a
-		// nested RLock deadlocks as soon as a writer queues between the two)
-		for _, v := range g.Nodes() {
-			if v.Node == nil || len(lf.may[v.ID]) == 0 {
-				continue
-			}
-			for _, call := range astx.Calls(v.Node, false) {
-				fn := astx.Callee(info, call)
-				if fn == nil || byObj[fn] == nil {
-					continue
-				}
-				for lk := range lf.may[v.ID] {
-					r.Check(!acquires[fn][lk], "C08.S4", fi.Name(), "no call to "+fname(fn)+" (acquires "+lk+") while "+lk+" is held", c.P.Pos(call.Pos()), "lockset before: "+lf.may[v.ID].String(),
-						"a method that acquires "+lk+" is called while this goroutine already holds it: sync.RWMutex is not re-entrant — a nested Lock deadlocks at once, a nested RLock as soon as a writer (Add, Delete) queues between the two acquisitions, after which GetNext and every other caller stay blocked forever")
-				}
-			}
-		}
-		hasOps := false
-		for _, call := range astx.Calls(fi.Body(), false) {
-			if lockOpOf(info, call) != nil {
-				hasOps = true
-			}
-		}
-		if !hasOps {
-			continue
-		}
-		// at every return (and at the fall-off exit): nothing held except deferred releases
-		check := func(v int, pos token.Pos, what string) {
-			var held []string
-			for k := range lf.may[v] {
-				if !lf.deferred[k] {
-					held = append(held, k)
-				}
-			}
-			r.Check(len(held) == 0, "C08.S4", fi.Name(), what+" releases every lock", c.P.Pos(pos), "lockset at exit: "+lf.may[v].String()+" (deferred releases excluded)",
-				"a path returns while still holding a lock: the next Add/Delete/GetNext blocks forever")
-		}
-		for _, rv := range g.Returns() {
-			check(rv.ID, rv.Node.Pos(), "return")
-		}
-		// upgrades and double acquisition
-		for _, v := range g.Nodes() {
-			es, ok := v.Node.(*ast.ExprStmt)
-			if !ok {
-				continue
-			}
-			call, ok := es.X.(*ast.CallExpr)
-			if !ok {
-				continue
-			}
-			op := lockOpOf(info, call)
-			if op == nil {
-				continue
-			}
-			switch op.op {
-			case "Lock", "RLock":
-				r.Check(lf.may[v.ID][op.lock] == "", "C08.S4", fi.Name(), op.op+" of "+op.lock+" when not already held", c.P.Pos(call.Pos()), "lockset before: "+lf.may[v.ID].String(),
-					"the lock is acquired on a path where this goroutine may already hold it (read-to-write upgrade or re-entry): self-deadlock")
-			case "Unlock":
-				r.Check(lf.must[v.ID][op.lock] == "W", "C08.S4", fi.Name(), "Unlock of "+op.lock+" held in write mode", c.P.Pos(call.Pos()), "lockset before: "+lf.must[v.ID].String(),
-					"Unlock on a path where the lock is not held in write mode (runtime fatal error)")
-			case "RUnlock":
-				r.Check(lf.must[v.ID][op.lock] == "R", "C08.S4", fi.Name(), "RUnlock of "+op.lock+" held in read mode", c.P.Pos(call.Pos()), "lockset before: "+lf.must[v.ID].String(),
-					"RUnlock on a path where the lock is not held in read mode (runtime fatal error)")
-			}
+		r.Ok("C08.S6", "outputstream", "error definitions and iterator positioning calls inspected", "-", itoa(nErr)+" / "+itoa(nPos))
+		if nErr < 5 || nPos < 2 {
+			r.Break("C08.S6: only %d error definitions / %d positioning calls found in outputstream", nErr, nPos)
 		}
 	}
+	c.lockHygiene("C08.S4", methods, "the next Add/Delete/GetNext blocks forever", "after which GetNext and every other caller stay blocked forever")
 	r.Floor("C08.S4", 15)
 }
 
